@@ -24,7 +24,8 @@ _FLAT = re.compile(r"^(.*)/([0-9]+-[0-9]+)_([0-9]+-[0-9]+)_([0-9]+-[0-9]+)$")
 
 class Fault:
     """behaviour for the k-th request (0-based) of the server's life."""
-    KINDS = ("404", "500", "503", "403", "short_body", "long_200",
+    KINDS = ("404", "500", "503", "403", "500_samelen", "404_samelen",
+             "short_body", "long_200",
              "wrong_range", "close_before", "close_after_headers",
              "empty_200")
 
@@ -76,8 +77,18 @@ class _Handler(http.server.BaseHTTPRequestHandler):
                 pass
             self.close_connection = True
             return
-        if kind in ("404", "500", "503", "403"):
+        if kind in ("404", "500", "503", "403", "500_samelen",
+                    "404_samelen"):
             body = b"injected error"
+            if kind.endswith("_samelen"):
+                # worst case: the error document is exactly as long as the
+                # requested byte range
+                kind = kind[:3]
+                m = re.match(r"bytes=(\d+)-(\d+)$",
+                             (self.headers.get("Range") or "").strip())
+                if m:
+                    n = int(m.group(2)) - int(m.group(1)) + 1
+                    body = (b"error document " * (n // 15 + 1))[:n]
             self.send_response(int(kind))
             self.send_header("Content-Length", str(len(body)))
             self.end_headers()
